@@ -113,3 +113,16 @@ def run(ctx, rep):
     n1 = check_fn(fx, rep, "check_missed_reader_deadline", "requested_deadline_missed_status", "RequestedDeadlineMissed")
     n2 = check_fn(fx, rep, "check_missed_writer_deadline", "offered_deadline_missed_status", "OfferedDeadlineMissed")
     rep.floor("R30a", n1 + n2, 2, "deadline miss conditions (reader + writer)")
+    # R30d: "no miss is reported while samples keep arriving": every sample that arrives for an instance restarts its deadline
+    # period, stored or not — each update_state call of add_reader_change passes Some(reception_timestamp)
+    b = fx.fn("DataReaderEntity", "add_reader_change")
+    fc = FnCtx(b)
+    ups = fc.calls("InstanceState::update_state")
+    k = 0
+    for bb, t in ups:
+        k += 1
+        a = E.strip_casts(fc.arg(t, 2)) if len(t.args) > 2 else ("rv", "?")
+        ok = a[0] == "adt" and a[2] == "Some" and a[3] and E.strip_casts(a[3][0])[0] == "param" and "Time" in fc.mir.locals[E.strip_casts(a[3][0])[1]]
+        adder(rep, b)("R30d", "an arriving sample restarts the instance's deadline period (update_state gets Some(reception_timestamp))", ok,
+                      "update_state is called with %s: a sample that is then filtered or rejected no longer refreshes last_received_time_stamp and a deadline miss is reported although samples keep arriving" % fc.show(a)[:60], t.line)
+    rep.floor("R30d", k, 4, "update_state calls in add_reader_change")
